@@ -244,3 +244,41 @@ func ZZC19History() {
 	want := render(fresh, freshPass, &o2, l2, col2)
 	nd.Assert(second == want, "a message does not depend on what the same Reporter rendered before")
 }
+
+// C19-K6: long indented lines. A 320-byte line with tabs at the start, in the middle and near the end, diagnostic columns
+// from every truncation regime (pinned, 14 values): the caret row has a tab exactly where the DISPLAYED (truncated) line
+// has one, and the excerpt/caret are truncateString / calculateDisplayColumn of the original line and column.
+func ZZC19Tabs() {
+	line := "\t\tif cond {\t" + strings.Repeat("x", 130) + "\tmid\t" + strings.Repeat("y", 150) + "\tend\t" + strings.Repeat("z", 12)
+	col := nd.Int("diag_col")
+	cols := []int{1, 2, 3, 12, 140, 197, 198, 199, 200, 210, 250, 300, len(line), len(line) + 1}
+	ok := false
+	for _, c := range cols {
+		ok = nd.Or(ok, col == c)
+	}
+	nd.Assume(ok)
+	col = nd.Pin(col)
+	fset, pos := nd.FsetFor("f.go", line, 1, col)
+	var got string
+	pass := &analysis.Pass{
+		Fset:     fset,
+		ReadFile: func(name string) ([]byte, error) { return []byte(line), nil },
+		Report:   func(d analysis.Diagnostic) { got = d.Message },
+	}
+	NewReporter(pass, nil).ReportViolation(zzViolation{code: "CTOR01", msg: "m", pos: pos})
+	t := truncateString(line, MaxLineLength, col)
+	d := calculateDisplayColumn(line, col, MaxLineLength)
+	caret := ""
+	for i := 1; i < d; i++ {
+		if i-1 < len(t) && t[i-1] == '\t' {
+			caret += "\t"
+		} else {
+			caret += " "
+		}
+	}
+	want := "error: [CTOR01] m\n  |\n1 | " + t + "\n  | " + caret + "^\n  |\n   = help: " + zzDocURL("CTOR01") + "\n"
+	nd.Assert(got == want, "long indented line: caret row repeats the tabs of the displayed line")
+	if col <= len(line) {
+		nd.Assert(d >= 1 && d <= len(t) && t[d-1] == line[col-1], "long indented line: caret under the reported character")
+	}
+}
